@@ -38,9 +38,39 @@ def mask_sites(prog):
 def check_m1(ctx, config):
     prog = ctx.prog(config)
     wrappers, users = mask_sites(prog)
-    if wrappers != {"signal_mask"} or users != {"process_fork"}:
+    if wrappers != {"signal_mask"} or not users <= {"process_fork", "process_start"} or "process_fork" not in users:
         raise AnalysisBroken("C12.M1: signal-mask primitives are called from %s, whose callers are %s; the confirmed "
-                             "table is signal_mask <- process_fork. Re-confirm the rule instances." % (sorted(wrappers), sorted(users)))
+                             "table is signal_mask <- process_fork (/ process_start). Re-confirm the rule instances." % (sorted(wrappers), sorted(users)))
+    if "process_start" in users:
+        # the mask is (also) handled one level up: judge the mask at every return of process_start, with process_fork inlined
+        from .. import summaries as S
+        Fs = prog.fn("process_start")
+        Is = new_interp(prog, overrides=S.HEAP_HELPERS)
+        rs = Is.run(Fs, S.process_start_entry(prog, Fs))
+        ctx.stats("E-ABS", Is.stats)
+        ORIG0 = frozenset({("sym", "ORIG")})
+        EMPTY0 = frozenset({("sym", "EMPTY")})
+        seen0 = set()
+        for st, rv in rs.exits:
+            mask = st.mon.get("sigmask", ORIG0)
+            proc = st.mon.get("proc", "parent")
+            site, node = ret_site(Fs, st)
+            key = (site, proc, show(mask))
+            if key in seen0:
+                continue
+            seen0.add(key)
+            if proc == "child":
+                ctx.ob("C12.M3m", site + " [child of process_start,%s]" % config, "the child returns (fork mode) with an empty signal mask installed",
+                       mask == EMPTY0, {"mask_at_return": show(mask)}, nontrivial=True)
+            else:
+                ctx.ob("C12.M1", site + " [process_start,%s]" % config, "the calling thread's signal mask at this return equals the mask at entry",
+                       mask == ORIG0, {"mask_at_return": show(mask)}, nontrivial=True)
+        for e in rs.events:
+            if e[0] == "exec":
+                m = e[4].mon.get("sigmask", ORIG0)
+                ctx.ob("C12.M3x", "process_start: execvp [%s]" % config, "the program is exec'ed with an empty signal mask", m == EMPTY0,
+                       {"mask_at_exec": show(m)}, nontrivial=True)
+                break
     prim = {p for p in MASK_PRIMS if callsites(prog, p)}
     want = {"posix-mt": {"pthread_sigmask"}, "posix-mt-assert": {"pthread_sigmask"}, "posix-st": {"sigprocmask"}}[config]
     ctx.ob("C12.M1p", "signal_mask[%s]" % config, "the mask primitive used in configuration %s is %s" % (config, sorted(want)),
@@ -60,6 +90,8 @@ def check_m1(ctx, config):
                   "side": proc}
         if proc == "child":
             nchild += 1
+            if "process_start" in users:
+                continue        # judged at the returns / exec of process_start above
             ctx.ob("C12.M3m", site + " [child,%s]" % config, "the child returns with an empty signal mask installed",
                    mask == EMPTY, detail, nontrivial=True)
         else:
